@@ -20,7 +20,7 @@ LEVEL = "exploration"
 RULE = (
     "Text = 1..5 tag lines + filler.  Tag line = {SPDX-License-Identifier, SPDX-FileContributor, copyright with one of the ten prefixes or "
     "SPDX-SnippetCopyrightText} x value (SPDX expression grammar / holder grammar / years) x one of 27 comment styles x form {bare, single-line, "
-    "inline multi-line, block multi-line, terminator on the tag's own line, two stacked terminators in either order with / without a blank between, ASCII-art frame} x indentation x trailing blanks x tab after the colon.  "
+    "inline multi-line, block multi-line, terminator on the tag's own line, two stacked terminators in either order with / without a blank between, trailing comment after code that spells a marker word, ASCII-art frame} x indentation x trailing blanks x tab after the colon.  "
     "Function level: extract_reuse_info must return exactly the by-construction sets (or raise for an unparseable expression).  File level: the same "
     "content as bytes with LF/CRLF/CR, a tag ending at byte 4090..4096 or starting at byte 4096..4100, with/without SPDX-SnippetBegin, with/without an "
     "unparseable expression, in the file or its .license sibling, read through `reuse lint --json`.  Non-trivial = some tag carries decoration "
@@ -75,7 +75,7 @@ def tag(draw, allow_invalid=False):
 def tag_segment(draw, allow_invalid=False):
     """A list of physical lines holding exactly one tag."""
     t = draw(tag(allow_invalid))
-    form = draw(st.sampled_from(["bare", "single", "single", "inline", "block", "lastline", "frame", "stacked"]))
+    form = draw(st.sampled_from(["bare", "single", "single", "inline", "block", "lastline", "frame", "stacked", "after-code"]))
     indent = draw(st.sampled_from(["", "", "  ", "\t", "    "]))
     trailing = draw(st.sampled_from(["", "", "", " ", "  ", "\t"]))
     prefix_text = ""
@@ -98,6 +98,12 @@ def tag_segment(draw, allow_invalid=False):
         start, mid, end = S.STYLES[style][1]
         lines = [f"{indent}{start}", f"{indent}{mid} {t['text']} {end.strip()}{trailing}"]
         prefix_text = mid.strip()
+    elif form == "after-code":
+        # a trailing comment: code in front of it, some of it spelled with a marker word that starts no notice ('showCopyright(')
+        style = draw(st.sampled_from([s_ for s_ in S.STYLES if S.has_single(s_) and not S.STYLES[s_][0][-1].isalnum()]))
+        code = draw(st.sampled_from(["showCopyright();", "CopyrightHeader = 1", "open('Copyright.txt')", "int copyright_year = 0;", "x = 1", "licenseIdentifier(SPDX);"]))
+        lines = [f"{indent}{code} {S.STYLES[style][0]} {t['text']}{trailing}"]
+        prefix_text = code + " " + S.STYLES[style][0]
     elif form == "stacked":
         # a comment inside a comment: two terminators after the value, in either order, with or without a blank between them
         # ('<!-- /* ... */ -->', '(* <!-- ... -->*)', '-->-->')
